@@ -23,8 +23,8 @@ NoPending == nb > Len(hills) /\ nbB > Len(hillsB)
 Indistinguishable == (started /\ quirk = {} /\ quirkB = {} /\ (NoPending \/ ~UseGrids \/ ~InGrid(Pos))) => (energy = energyB /\ force = forceB)
 SameDeposits == started => deposited = depositedB
 PView == <<mech, mechB, p, resumes, quirk, quirkB>>
-WitInit == TLCSet(1, FALSE)
-Wit == (resumes > 0 /\ quirkB = {} /\ energyB > 0 /\ relB > 0) => TLCSet(1, TRUE)
-WitPost == TLCGet(1)
-PSpecW == (PInit /\ WitInit) /\ [][PNext]_pvars
+\* vacuity witnesses: the check searches a state satisfying each Witness<i> (a violation of NoWitness<i>)
+Witness1 == resumes > 0 /\ quirkB = {} /\ energyB > 0 /\ relB > 0
+NoWitness1 == ~Witness1
+PSpecW == (PInit) /\ [][PNext]_pvars
 =============================================================================
